@@ -79,7 +79,7 @@ func fifoShape(c *Ctx, rule string) {
 		o.Fail(push.Pos(), "expected one store to the queue slice in push, found %d", nSt)
 	}
 	// success return of push (true) must pass the store
-	if ok, bad := mustPass(entryPos(push), func(in ssa.Instruction) bool {
+	if ok, bad := mustPassU(entryPos(push), func(in ssa.Instruction) bool {
 		ret, ok := in.(*ssa.Return)
 		if !ok {
 			return false
@@ -175,7 +175,7 @@ func peekBelief(c *Ctx, rule string, floor int) {
 		if pkgOf(f) != "vnet" {
 			continue
 		}
-		for _, in := range findInstrs(f, func(in ssa.Instruction) bool { return isQueueCall(in, "peek") }) {
+		for _, in := range findU(f, func(in ssa.Instruction) bool { return isQueueCall(in, "peek") }) {
 			pk := in.(*ssa.Call)
 			o.Site(in.Pos(), "peek() in %s", fname(f))
 			nonNil := func(at ssa.Instruction) bool {
@@ -249,6 +249,7 @@ func checkUsesGuarded(o *Obligation, f *ssa.Function, val, okv ssa.Value, nonNil
 
 func runC16(c *Ctx) {
 	p := c.P
+	vnetExclude(p)
 	f := p.Func("vnet", "LossFilter", "onInboundChunk")
 	nw := p.Func("vnet", "", "NewLossFilter")
 	named := p.Named("vnet", "LossFilter")
@@ -307,7 +308,7 @@ func runC16(c *Ctx) {
 	} else if k, ok := constInt(d.Call.Args[0]); !ok || k != 100 {
 		o.Fail(d.Pos(), "the draw is not uniform over [0,100)")
 	}
-	if m, inf := maxEvents(entryPos(f), isReturn, func(in ssa.Instruction) int { return b2i(in == ssa.Instruction(d)) }); m != 1 || inf {
+	if m, inf := maxEventsU(entryPos(f), isReturn, func(in ssa.Instruction) int { return b2i(in == ssa.Instruction(d)) }); m != 1 || inf {
 		o.Fail(d.Pos(), "the draw can be executed more than once per datagram")
 	}
 	recv := f.Params[0].Name()
@@ -381,7 +382,7 @@ func runC16(c *Ctx) {
 	if nF == 0 {
 		o.Fail(f.Pos(), "the loss filter never forwards")
 	}
-	if m, inf := maxEvents(entryPos(f), isReturn, func(in ssa.Instruction) int { return b2i(isNICForward(in, "vnet.LossFilter")) }); m > 1 || inf {
+	if m, inf := maxEventsU(entryPos(f), isReturn, func(in ssa.Instruction) int { return b2i(isNICForward(in, "vnet.LossFilter")) }); m > 1 || inf {
 		o.Fail(f.Pos(), "a datagram can be forwarded more than once")
 	}
 }
@@ -393,6 +394,7 @@ func runC16(c *Ctx) {
 func runC15(c *Ctx) {
 	p := c.P
 	T := "vnet.TokenBucketFilter"
+	vnetExclude(p, p.Func("vnet", "TokenBucketFilter", "run"), p.Func("vnet", "TokenBucketFilter", "drainQueue"), p.Func("vnet", "TokenBucketFilter", "refillTokens"))
 	run := p.Func("vnet", "TokenBucketFilter", "run")
 	nw := p.Func("vnet", "", "NewTokenBucketFilter")
 	if run == nil || nw == nil || p.Named("vnet", "TokenBucketFilter") == nil {
@@ -463,12 +465,12 @@ func runC15(c *Ctx) {
 			call, ok := s.Val.(*ssa.Call)
 			return ok && callName(call) == "math.Min"
 		}
-		if ok, bad := mustPass(entryPos(refill), isReturn, isCap); !ok {
+		if ok, bad := mustPassU(entryPos(refill), isReturn, isCap); !ok {
 			o.Fail(bad.Pos(), "%s can return without clipping the token count to the current burst size (a burst lowered at run time is never enforced)", fname(refill))
 		}
 		// the refill runs under the mutex that protects rate/maxBurst
 		la := computeLocksets(p)
-		for _, in := range findInstrs(refill, isCap) {
+		for _, in := range findU(refill, isCap) {
 			if !la.holdsOwner(in, T, true) {
 				o.Fail(in.Pos(), "the refill reads rate/maxBurst outside the filter's mutex")
 			}
@@ -479,7 +481,7 @@ func runC15(c *Ctx) {
 	// R2 drain loop: forward only with enough tokens, paired with one pop and the matching decrement
 	var drain *ssa.Function
 	for f := range fns {
-		if len(findInstrs(f, func(in ssa.Instruction) bool { return isNICForward(in, T) })) > 0 {
+		if len(findU(f, func(in ssa.Instruction) bool { return isNICForward(in, T) })) > 0 {
 			if drain != nil && drain != f {
 				drain = nil
 				break
@@ -494,7 +496,7 @@ func runC15(c *Ctx) {
 		if pkgOf(f) != "vnet" {
 			continue
 		}
-		for _, in := range findInstrs(f, func(in ssa.Instruction) bool { return isNICForward(in, T) }) {
+		for _, in := range findU(f, func(in ssa.Instruction) bool { return isNICForward(in, T) }) {
 			nFwdSites++
 			o.Site(in.Pos(), "forward in %s", fname(f))
 		}
@@ -503,7 +505,7 @@ func runC15(c *Ctx) {
 		o.Fail(run.Pos(), "expected exactly one forwarding site (in the drain loop), found %d: a second site can overtake queued datagrams (FIFO) or bypass the token test", nFwdSites)
 	}
 	if drain != nil {
-		fw := findInstrs(drain, func(in ssa.Instruction) bool { return isNICForward(in, T) })[0].(*ssa.Call)
+		fw := findU(drain, func(in ssa.Instruction) bool { return isNICForward(in, T) })[0].(*ssa.Call)
 		arg := fw.Call.Args[0]
 		pk, _ := arg.(*ssa.Call)
 		if pk == nil || !isQueueCall(pk, "peek") {
@@ -541,27 +543,27 @@ func runC15(c *Ctx) {
 				is   func(ssa.Instruction) bool
 			}{{"pop", isPop}, {"token decrement by the forwarded size", isDec}} {
 				// on every path through the forward within one iteration: exactly one event
-				mx, inf := maxEvents(posAfter(pk), end, func(in ssa.Instruction) int { return b2i(ev.is(in)) })
+				mx, inf := maxEventsU(posAfter(pk), end, func(in ssa.Instruction) int { return b2i(ev.is(in)) })
 				if mx > 1 || inf {
 					o.Fail(fw.Pos(), "more than one %s per loop iteration", ev.name)
 				}
 				// forward => event on the same iteration: from peek, reaching the end of the iteration having forwarded requires the event
-				before, _ := mustPass(posAfter(pk), func(in ssa.Instruction) bool { return in == ssa.Instruction(fw) }, ev.is)
-				after, _ := mustPass(posAfter(fw), end, ev.is)
+				before, _ := mustPassU(posAfter(pk), func(in ssa.Instruction) bool { return in == ssa.Instruction(fw) }, ev.is)
+				after, _ := mustPassU(posAfter(fw), end, ev.is)
 				if !before && !after {
 					o.Fail(fw.Pos(), "a forwarded datagram is not paired with a %s on every path of the iteration", ev.name)
 				}
 			}
 			// pop => forward (nothing is popped and discarded)
-			for _, pp := range findInstrs(drain, isPop) {
+			for _, pp := range findU(drain, isPop) {
 				o.Site(pp.Pos(), "pop")
-				bef, _ := mustPass(posAfter(pk), func(in ssa.Instruction) bool { return in == pp }, func(in ssa.Instruction) bool { return in == ssa.Instruction(fw) })
-				aft, _ := mustPass(posAfter(pp), end, func(in ssa.Instruction) bool { return in == ssa.Instruction(fw) })
+				bef, _ := mustPassU(posAfter(pk), func(in ssa.Instruction) bool { return in == pp }, func(in ssa.Instruction) bool { return in == ssa.Instruction(fw) })
+				aft, _ := mustPassU(posAfter(pp), end, func(in ssa.Instruction) bool { return in == ssa.Instruction(fw) })
 				if !bef && !aft {
 					o.Fail(pp.Pos(), "the head is popped on a path that does not forward it: a datagram is discarded although the queue is not full")
 				}
 			}
-			if mx, inf := maxEvents(posAfter(pk), end, func(in ssa.Instruction) int { return b2i(in == ssa.Instruction(fw)) }); mx > 1 || inf {
+			if mx, inf := maxEventsU(posAfter(pk), end, func(in ssa.Instruction) int { return b2i(in == ssa.Instruction(fw)) }); mx > 1 || inf {
 				o.Fail(fw.Pos(), "the head can be forwarded twice in one iteration")
 			}
 		}
@@ -592,7 +594,7 @@ func runC15(c *Ctx) {
 		})
 	}
 	// arriving chunk: received from the filter's channel in run, pushed, then drained
-	for _, cm := range commsOf(run) {
+	for _, cm := range commsOfU(run) {
 		if cm.Dir == types.RecvOnly && strings.HasPrefix(chanRole(cm.Chan), "field "+T+".") && cm.Sel != nil {
 			cs, _ := caseBlocks(cm.Sel)
 			blk := cs[cm.Index]
@@ -606,7 +608,7 @@ func runC15(c *Ctx) {
 				continue
 			}
 			isPush := func(in ssa.Instruction) bool { return isQueueCall(in, "push") }
-			ok1, bad := mustPass(blockStart(blk), func(in ssa.Instruction) bool {
+			ok1, bad := mustPassU(blockStart(blk), func(in ssa.Instruction) bool {
 				if isReturn(in) {
 					return true
 				}
@@ -651,6 +653,7 @@ func runC15(c *Ctx) {
 func runC14(c *Ctx) {
 	p := c.P
 	T := "vnet.DelayFilter"
+	vnetExclude(p)
 	run := p.Func("vnet", "DelayFilter", "Run")
 	arr := p.Func("vnet", "DelayFilter", "onInboundChunk")
 	pc := p.Func("vnet", "Router", "processChunks")
@@ -663,8 +666,8 @@ func runC14(c *Ctx) {
 
 	// R2 due edge dominates pop+forward (filter)
 	o := c.Obl("R2", fname(run), "the delay filter pops and forwards only on the edge where the head's due time is before now", 1)
-	fwd := findInstrs(run, func(in ssa.Instruction) bool { return isNICForward(in, T) })
-	pops := findInstrs(run, func(in ssa.Instruction) bool { return isQueueCall(in, "pop") })
+	fwd := findU(run, func(in ssa.Instruction) bool { return isNICForward(in, T) })
+	pops := findU(run, func(in ssa.Instruction) bool { return isQueueCall(in, "pop") })
 	dueFact := func(ft fact) bool {
 		return boolFact(ft, func(v ssa.Value) bool {
 			call, ok := v.(*ssa.Call)
@@ -711,17 +714,17 @@ func runC14(c *Ctx) {
 	}
 	for _, pp := range pops {
 		o5.Site(pp.Pos(), "pop")
-		if ok, bad := mustPass(posAfter(pp), loopEnd, func(in ssa.Instruction) bool { return isNICForward(in, T) }); !ok {
+		if ok, bad := mustPassU(posAfter(pp), loopEnd, func(in ssa.Instruction) bool { return isNICForward(in, T) }); !ok {
 			o5.Fail(bad.Pos(), "after a pop the loop can wait again without forwarding the chunk")
 		}
-		if mx, inf := maxEvents(posAfter(pp), loopEnd, func(in ssa.Instruction) int { return b2i(isNICForward(in, T)) }); mx > 1 || inf {
+		if mx, inf := maxEventsU(posAfter(pp), loopEnd, func(in ssa.Instruction) int { return b2i(isNICForward(in, T)) }); mx > 1 || inf {
 			o5.Fail(pp.Pos(), "a popped chunk can be forwarded more than once")
 		}
 	}
 	for _, fw := range fwd {
 		dom := false
 		for _, pp := range pops {
-			if dominates(pp, fw) {
+			if domU(pp, fw) {
 				dom = true
 			}
 		}
@@ -763,11 +766,11 @@ func runC14(c *Ctx) {
 			}
 		})
 	}
-	pushes := findInstrs(arr, func(in ssa.Instruction) bool { return isQueueCall(in, "push") })
-	for _, cm := range commsOf(arr) {
+	pushes := findU(arr, func(in ssa.Instruction) bool { return isQueueCall(in, "push") })
+	for _, cm := range commsOfU(arr) {
 		if cm.Dir == types.SendOnly {
 			for _, ps := range pushes {
-				if !dominates(ps, cm.Instr) {
+				if !domU(ps, cm.Instr) {
 					o.Fail(cm.Instr.Pos(), "the loop is notified before the chunk is queued")
 				}
 			}
@@ -817,7 +820,7 @@ func runC14(c *Ctx) {
 		return hasFact(iff, func(ft fact) bool { return nilFact(ft, func(v ssa.Value) bool { return v == ta.X }, false) })
 	}
 	var waitSel *ssa.Select
-	for _, cm := range commsOf(run) {
+	for _, cm := range commsOfU(run) {
 		if cm.Sel != nil && cm.Sel.Blocking && strings.HasPrefix(chanRole(cm.Chan), "timer.C") {
 			waitSel = cm.Sel
 			cs, _ := caseBlocks(cm.Sel)
@@ -841,7 +844,7 @@ func runC14(c *Ctx) {
 	if waitSel == nil {
 		o.Undecide("no blocking select on a timer channel in the filter loop")
 	}
-	for _, stp := range findInstrs(run, func(in ssa.Instruction) bool { return isCall(in, "(*time.Timer).Stop") }) {
+	for _, stp := range findU(run, func(in ssa.Instruction) bool { return isCall(in, "(*time.Timer).Stop") }) {
 		o.Site(stp.Pos(), "timer.Stop()")
 		re := reachEdges(posAfter(stp), func(in ssa.Instruction) bool { return isReset(in) || loopEnd(in) }, infeasible)
 		for in := range re {
@@ -850,7 +853,7 @@ func runC14(c *Ctx) {
 			}
 		}
 		// drained receive only when Stop returned false
-		for _, cm := range commsOf(run) {
+		for _, cm := range commsOfU(run) {
 			if cm.Sel == nil && cm.Dir == types.RecvOnly && strings.HasPrefix(chanRole(cm.Chan), "timer.C") {
 				if !hasFact(cm.Instr, func(ft fact) bool { return boolFact(ft, func(v ssa.Value) bool { return v == ssa.Value(stp.(*ssa.Call)) }, false) }) {
 					o.Fail(cm.Instr.Pos(), "the timer channel is drained although Stop() may have succeeded (blocks forever)")
@@ -894,7 +897,7 @@ func runC14(c *Ctx) {
 			return ok && ts.Call.IsInvoke() && ts.Call.Method.Name() == "getTimestamp" && call.Call.Args[1] == ssa.Value(cut)
 		}, false)
 	}
-	for _, in := range findInstrs(pc, func(in ssa.Instruction) bool { return isQueueCall(in, "pop") }) {
+	for _, in := range findU(pc, func(in ssa.Instruction) bool { return isQueueCall(in, "pop") }) {
 		o.Site(in.Pos(), "pop")
 		if !hasFact(in, notDue) {
 			o.Fail(in.Pos(), "the router pops a chunk on a path where its timestamp was not compared with the cut-off")
@@ -910,7 +913,7 @@ func runC14(c *Ctx) {
 			qpush = in
 		}
 	})
-	if stamp == nil || qpush == nil || !dominates(stamp, qpush) {
+	if stamp == nil || qpush == nil || !domU(stamp, qpush) {
 		o.Fail(rpush.Pos(), "the chunk is not stamped before the router enqueues it")
 	} else {
 		o.Site(stamp.Pos(), "setTimestamp before queue.push")
